@@ -50,7 +50,17 @@ def family_key(clause, name, text, case=None):
         return 'naive-datetime-becomes-gmt/%s' % name
     if not text_class:
         if (name in IDNA_CLASSES and clause.startswith('compose-fails')) or 'labels[' in text or 'host_name:' in text:
-            return 'idna-label-not-preserved/%s' % name
+            # the known family is about names that are not in canonical spelling already (upper-case letters, A-labels,
+            # bytes outside letters-digits-hyphen).  Where the harness can see the name - the stand-alone server_name
+            # extension: 9 octets of framing, then the name - a name of plain lower-case LDH labels that changes its
+            # meaning is a new finding, not a member of the family
+            plain = False
+            if name == 'TlsExtensionServerNameClient' and case is not None and 'hex' in case:
+                host = bytes.fromhex(case['hex'])[9:]
+                plain = bool(host) and all(0x61 <= b <= 0x7a or 0x30 <= b <= 0x39 or b in (0x2d, 0x2e) for b in host) \
+                    and b'xn--' not in host and b'..' not in host and not host.startswith(b'.')
+            if not plain:
+                return 'idna-label-not-preserved/%s' % name
         if name == 'DnsRecordDnskey':
             return 'key-leading-zeros-not-preserved/%s' % name
     return None
@@ -70,6 +80,8 @@ def _variant_seeds(cls):
 def check_case(case):
     from cryptoparser.common.parse import ParsableBaseNoABC  # pylint: disable=import-outside-toplevel
     cls = lib.resolve(case['cls'])
+    if case.get('kind') == 'history':
+        return history_clause(cls, bytes.fromhex(case['hex']))
     name = cls.__name__
     data = bytes.fromhex(case['hex'])
     with targets.watchdog(30):
@@ -126,6 +138,32 @@ def check_case(case):
 check_case.noncanonical = False
 
 
+def _canonical_of(cls, data):
+    parsed = lib.call(cls.parse_immutable, data)
+    if not parsed.ok or not callable(getattr(parsed.value[0], 'compose', None)):
+        return None
+    composed = lib.call(parsed.value[0].compose)
+    return bytes(composed.value) if composed.ok else None
+
+
+def history_clause(cls, seed):
+    """The seed is judged right after a case variant of it (ASCII letters flipped) has gone through the library - before
+    the seed itself has been seen by this process, as far as the harness can arrange that.  A cache keyed by a folded
+    name hands the variant's spelling to the seed."""
+    variant = bytes(byte ^ 0x20 if 0x41 <= byte <= 0x5a or 0x61 <= byte <= 0x7a else byte for byte in seed)
+    if variant == seed:
+        return []
+    _canonical_of(cls, variant)            # whatever happens to the variant is judged as an input of its own
+    first = _canonical_of(cls, seed)
+    findings = check_case({'cls': lib.ref_of(cls), 'hex': seed.hex(), 'origin': 'seed'})
+    again = _canonical_of(cls, seed)
+    if first != again:
+        findings.append(Finding('canonical-depends-on-history/%s' % cls.__name__, {
+            'input': seed.hex()[:200], 'first': None if first is None else first.hex()[:200],
+            'second': None if again is None else again.hex()[:200]}))
+    return findings
+
+
 def _shard(arg):
     index, seed_value, per_class, budget_s = arg
     started = time.time()
@@ -141,6 +179,12 @@ def _shard(arg):
             stats.labels['classes-without-seed'] += 1
             continue
         inputs = [(seed, 'seed') for seed in base]
+        # the canonical form is a function of the input: what an input re-serialises to must not depend on which other
+        # spelling of the same value the process has handled before (a case variant of its letters here)
+        for seed in base[:12]:
+            for finding in history_clause(cls, seed):
+                stats.finding(finding, {'kind': 'history', 'cls': ref, 'hex': seed.hex()})
+            stats.labels['history:case-variant-first'] += 1
         text = None
         for number in range(per_class):
             seed = base[number % len(base)]
